@@ -762,3 +762,247 @@ Section Structural.
     Qed.
   End Chain.
 End Structural.
+
+(* ------------------------------------------------------------------------------------------ *)
+(* 4. every action is a sequence of SQL statements (Crash.v): referential integrity in every
+   state of every schedule *)
+
+Definition stmts (t t' : tower) : Prop := exists l, db_of t' = execs (db_of t) l.
+
+Lemma stmts_refl t : stmts t t.
+Proof. exists []. reflexivity. Qed.
+Lemma stmts_trans a b c : stmts a b -> stmts b c -> stmts a c.
+Proof. intros [l1 H1] [l2 H2]. exists (l1 ++ l2). unfold execs in *. rewrite fold_left_app, <- H1. exact H2. Qed.
+Lemma stmts_same t t' : db_of t' = db_of t -> stmts t t'.
+Proof. intros H. exists []. exact H. Qed.
+Lemma stmts_one t t' s : db_of t' = Crash.exec (db_of t) s -> stmts t t'.
+Proof. intros H. exists [s]. exact H. Qed.
+
+Lemma stmts_refund_loop us : forall t, stmts t (state_of (refund_loop t us)).
+Proof.
+  induction us as [|uuid us IH]; intros t; cbn [refund_loop state_of]; [apply stmts_refl|].
+  destruct (find_app (db_apps t) uuid) as [a|]; [|apply stmts_refl].
+  destruct (gk_get t (a_user a)) as [ui|]; [|apply stmts_refl].
+  destruct (u32_add (u_slots ui) (slots_of (b_len (a_blob a)))) as [s|]; [|apply stmts_refl].
+  eapply stmts_trans; [|apply IH]. eapply stmts_one. apply prim_refund_is_stmt.
+Qed.
+
+Lemma stmts_delete t us refund : stmts t (state_of (gk_delete_appointments t us refund)).
+Proof.
+  unfold gk_delete_appointments. destruct refund; cbn [state_of].
+  - pose proof (stmts_refund_loop us t) as H. destruct (refund_loop t us) as [[] t1|s t1]; cbn [bind state_of] in *; [|exact H].
+    eapply stmts_trans; [exact H|]. eapply stmts_one. apply prim_delete_apps_is_stmt.
+  - eapply stmts_one. apply prim_delete_apps_is_stmt.
+Qed.
+
+Lemma stmts_add_tracker t uuid d p s : stmts t (r_add_tracker t uuid d p s).
+Proof.
+  unfold r_add_tracker.
+  destruct s as [h|h| |c]; try apply stmts_refl;
+    destruct (find_trk (db_trks t) uuid) eqn:Et; try apply stmts_refl;
+    destruct (find_app (db_apps t) uuid) as [a0|] eqn:Ea; try apply stmts_refl;
+    (eapply stmts_one; eapply prim_insert_trk_is_stmt; cbn [trk_uuid t_loc t_user]; destruct uuid; eassumption).
+Qed.
+
+Lemma stmts_store_app t a : stmts t (state_of (w_store_appointment t a)).
+Proof.
+  unfold w_store_appointment. destruct (find_app (db_apps t) (app_uuid a)) eqn:Ef; cbn [state_of].
+  - eapply stmts_one. apply prim_update_app_is_stmt.
+  - destruct (amem (db_users t) (a_user a)) eqn:Em; cbn [state_of]; [|apply stmts_refl].
+    eapply stmts_one. apply prim_insert_app_is_stmt; assumption.
+Qed.
+
+Lemma stmts_check_conf le txs h snap : forall t comp, stmts t (state_of (check_conf_loop le txs h snap t comp)).
+Proof.
+  induction snap as [|k snap IH]; intros t comp; cbn [check_conf_loop state_of]; [apply stmts_refl|].
+  destruct (memN (t_penalty k) txs).
+  - destruct (find_trk (db_trks t) (trk_uuid k)); [|apply stmts_refl].
+    eapply stmts_trans; [|apply IH]. eapply stmts_one. cbn [db_of db_users db_apps db_trks set_reorged]. apply prim_trk_status_is_stmt.
+  - destruct (mem_uuid (trk_uuid k) (reorged t)); [apply IH|]. destruct (t_conf k); apply IH.
+Qed.
+
+Definition G_stmts : list lock -> tower -> tower -> Prop := fun _ t t' => stmts t t'.
+
+Lemma G_stmts_common sc : OblCommon G_stmts sc.
+Proof.
+  constructor; unfold G_stmts; intros.
+  - apply stmts_refl.
+  - apply stmts_delete.
+  - apply stmts_same. unfold in_mempool. reflexivity.
+  - apply stmts_same. unfold send_transaction. destruct (aget (car_memo t) tx); reflexivity.
+  - apply stmts_add_tracker.
+Qed.
+
+Lemma G_stmts_api : OblApi G_stmts.
+Proof.
+  constructor; unfold G_stmts; intros.
+  - eapply stmts_one. apply prim_set_user_is_stmt.
+  - eapply stmts_one. apply prim_new_user_is_stmt. assumption.
+  - apply stmts_store_app.
+Qed.
+
+Lemma G_stmts_chain : OblChain G_stmts.
+Proof.
+  constructor; unfold G_stmts; intros; try (apply stmts_same; reflexivity).
+  - eapply stmts_one. instantiate (1 := SDelUsers outd). reflexivity.
+  - apply stmts_check_conf.
+  - eapply stmts_one. apply prim_trk_status_is_stmt.
+Qed.
+
+(* Whatever the schedule, the tables at any moment are the initial tables after a sequence of the
+   SQL statements of Crash.v ... *)
+Theorem tables_are_statement_sequences le sc t0 t (opss : list (list op)) sched :
+  stmts t (cf_tower (run_config (init_config t (map (prog_of_thread le sc t0) opss)) sched)).
+Proof.
+  apply (invariant_of_all_schedules (fun t' => stmts t t')); [|apply stmts_refl].
+  apply Forall_forall. intros p Hp. apply in_map_iff in Hp. destruct Hp as [ops [<- _]].
+  eapply guark_mono; [|apply (g_thread G_stmts le sc (G_stmts_common sc) G_stmts_chain G_stmts_api t0 ops ktrue); intros; exact I].
+  intros h a b Hab Ha. eapply stmts_trans; eauto.
+Qed.
+
+(* ... hence key uniqueness and referential integrity (every appointment has its user row, every
+   tracker its appointment row) hold in every state of every interleaving, aborts included *)
+Theorem no_orphan_records_all_schedules le sc t0 t (opss : list (list op)) sched :
+  DbInv (db_of t) -> DbInv (db_of (fst (run_sched t (map (prog_of_thread le sc t0) opss) sched))).
+Proof.
+  intros HD. unfold run_sched. cbn [fst].
+  destruct (tables_are_statement_sequences le sc t0 t opss sched) as [l ->]. apply execs_inv. exact HD.
+Qed.
+
+(* ------------------------------------------------------------------------------------------ *)
+(* 5. a lock protects its data: an action executed without holding lock L leaves the data inside
+   Mutex L untouched (what Rust's typing of Mutex<T> guarantees for the code) *)
+
+Definition G_prot (held : list lock) (t t' : tower) : Prop :=
+  cfg t' = cfg t /\
+  (memN L_cache held = false -> w_cache t' = w_cache t) /\
+  (memN L_users held = false -> gk_users t' = gk_users t) /\
+  (memN L_carrier held = false -> car_memo t' = car_memo t /\ car_height t' = car_height t /\ rpc_log t' = rpc_log t) /\
+  (memN L_txindex held = false -> r_index t' = r_index t) /\
+  (memN L_reorged held = false -> reorged t' = reorged t) /\
+  (memN L_db held = false -> db_users t' = db_users t /\ db_apps t' = db_apps t /\ db_trks t' = db_trks t).
+
+(* what the compound procedures may touch *)
+Definition touches_users_db (t t' : tower) : Prop :=
+  cfg t' = cfg t /\ gk_height t' = gk_height t /\ w_height t' = w_height t /\ w_cache t' = w_cache t /\ r_index t' = r_index t /\
+  car_height t' = car_height t /\ car_memo t' = car_memo t /\ reorged t' = reorged t /\ rpc_log t' = rpc_log t.
+
+Lemma touches_refl t : touches_users_db t t.
+Proof. repeat split. Qed.
+Lemma touches_trans a b c : touches_users_db a b -> touches_users_db b c -> touches_users_db a c.
+Proof. unfold touches_users_db. intuition congruence. Qed.
+
+Lemma touches_refund_loop us : forall t, touches_users_db t (state_of (refund_loop t us)).
+Proof.
+  induction us as [|uuid us IH]; intros t; cbn [refund_loop state_of]; [apply touches_refl|].
+  destruct (find_app (db_apps t) uuid) as [a|]; [|apply touches_refl].
+  destruct (gk_get t (a_user a)) as [ui|]; [|apply touches_refl].
+  destruct (u32_add (u_slots ui) (slots_of (b_len (a_blob a)))) as [s|]; [|apply touches_refl].
+  eapply touches_trans; [|apply IH]. repeat split.
+Qed.
+
+Lemma touches_delete t us refund : touches_users_db t (state_of (gk_delete_appointments t us refund)).
+Proof.
+  unfold gk_delete_appointments. destruct refund; cbn [state_of]; [|repeat split].
+  pose proof (touches_refund_loop us t) as H. destruct (refund_loop t us) as [[] t1|s t1]; cbn [bind state_of] in *; [|exact H].
+  eapply touches_trans; [exact H|]. repeat split.
+Qed.
+
+Definition touches_trks_reorged (t t' : tower) : Prop :=
+  cfg t' = cfg t /\ gk_users t' = gk_users t /\ gk_height t' = gk_height t /\ db_users t' = db_users t /\ db_apps t' = db_apps t /\
+  w_height t' = w_height t /\ w_cache t' = w_cache t /\ r_index t' = r_index t /\
+  car_height t' = car_height t /\ car_memo t' = car_memo t /\ rpc_log t' = rpc_log t.
+
+Lemma touches_check_conf le txs h snap : forall t comp, touches_trks_reorged t (state_of (check_conf_loop le txs h snap t comp)).
+Proof.
+  induction snap as [|k snap IH]; intros t comp; cbn [check_conf_loop state_of]; [repeat split|].
+  destruct (memN (t_penalty k) txs).
+  - destruct (find_trk (db_trks t) (trk_uuid k)); [|repeat split].
+    match goal with |- touches_trks_reorged t (state_of (check_conf_loop _ _ _ _ ?t1 _)) =>
+      pose proof (IH t1 comp) as H; unfold touches_trks_reorged in *; cbn in H |- *; intuition congruence end.
+  - destruct (mem_uuid (trk_uuid k) (reorged t)); [apply IH|]. destruct (t_conf k); apply IH.
+Qed.
+
+Ltac prot := unfold G_prot, has in *; repeat split; intros; try reflexivity; try congruence.
+
+Lemma G_prot_common sc : OblCommon G_prot sc.
+Proof.
+  constructor; intros.
+  - prot.
+  - pose proof (touches_delete t us refund) as [? [? [? [? [? [? [? [? ?]]]]]]]]. prot.
+  - unfold in_mempool. cbn [snd]. prot.
+  - unfold send_transaction. destruct (aget (car_memo t) tx); cbn [snd]; prot.
+  - unfold r_add_tracker. destruct s; try prot; destruct (find_trk (db_trks t) uuid); try prot; destruct (find_app (db_apps t) uuid); prot.
+Qed.
+
+Lemma G_prot_api : OblApi G_prot.
+Proof.
+  constructor; intros.
+  - prot.
+  - prot.
+  - unfold w_store_appointment. destruct (find_app (db_apps t) (app_uuid a)); [prot|]. destruct (amem (db_users t) (a_user a)); prot.
+Qed.
+
+Lemma G_prot_chain : OblChain G_prot.
+Proof.
+  constructor; intros; try (prot; fail).
+  pose proof (touches_check_conf le txs x (db_trks t) t []) as [? [? [? [? [? [? [? [? [? [? ?]]]]]]]]]]. prot.
+Qed.
+
+Theorem lock_protects_data le sc t0 ops : guark G_prot [] (prog_of_thread le sc t0 ops) (fun h _ => h = []).
+Proof. apply (g_thread G_prot le sc (G_prot_common sc) G_prot_chain G_prot_api). reflexivity. Qed.
+
+(* ------------------------------------------------------------------------------------------ *)
+(* 6. read-modify-write under `users` is atomic: while a thread holds the users lock, no step of
+   any other thread changes the gatekeeper's user map (for ANY number of threads running thread
+   programs of the quantifier, and any schedule) *)
+
+Definition progs_of le sc t0 (opss : list (list op)) : list (prog out) := map (prog_of_thread le sc t0) opss.
+
+Lemma reachable_guar G le sc t0 t opss sched :
+  OblCommon G sc -> OblChain G -> OblApi G ->
+  Forall (tguar G) (cf_threads (run_config (init_config t (progs_of le sc t0 opss)) sched)).
+Proof.
+  intros HC HB HA. apply (run_config_inv (fun c => Forall (tguar G) (cf_threads c))).
+  - intros c i c' Hall Hs. apply (step_guar G c i c' Hall Hs).
+  - cbn [cf_threads init_config]. apply Forall_forall. intros th Hin. apply in_map_iff in Hin. destruct Hin as [p [<- Hp]].
+    apply tguar_spawn. apply in_map_iff in Hp. destruct Hp as [ops [<- _]].
+    apply (g_thread G le sc HC HB HA t0 ops ktrue). intros; exact I.
+Qed.
+
+Theorem users_map_stable_while_locked le sc t0 t opss sched i j thi c' :
+  let c := run_config (init_config t (progs_of le sc t0 opss)) sched in
+  nth_error (cf_threads c) i = Some thi -> holds thi L_users = true -> i <> j ->
+  step_thread c j = Some c' ->
+  gk_users (cf_tower c') = gk_users (cf_tower c).
+Proof.
+  intros c Hi Hh Hij Hs.
+  pose proof (reachable_guar G_prot le sc t0 t opss sched (G_prot_common sc) G_prot_chain G_prot_api) as Hall.
+  pose proof (excl_run t (progs_of le sc t0 opss) sched) as Hex. fold c in Hall, Hex.
+  destruct (step_guar G_prot c j c' Hall Hs) as [_ [E|[thj [Hj Hg]]]]; [rewrite E; reflexivity|].
+  destruct Hg as [_ [_ [Hu _]]]. apply Hu. exact (Hex i j thi thj L_users Hi Hj Hij Hh).
+Qed.
+
+(* the same for the three tables under `dbm`, the locator cache under its lock, ... : one statement *)
+Theorem data_stable_while_locked le sc t0 t opss sched i j thi c' l :
+  let c := run_config (init_config t (progs_of le sc t0 opss)) sched in
+  nth_error (cf_threads c) i = Some thi -> holds thi l = true -> i <> j ->
+  step_thread c j = Some c' ->
+  (l = L_cache -> w_cache (cf_tower c') = w_cache (cf_tower c)) /\
+  (l = L_users -> gk_users (cf_tower c') = gk_users (cf_tower c)) /\
+  (l = L_db -> db_users (cf_tower c') = db_users (cf_tower c) /\ db_apps (cf_tower c') = db_apps (cf_tower c) /\
+               db_trks (cf_tower c') = db_trks (cf_tower c)) /\
+  (l = L_carrier -> car_memo (cf_tower c') = car_memo (cf_tower c) /\ car_height (cf_tower c') = car_height (cf_tower c)) /\
+  (l = L_txindex -> r_index (cf_tower c') = r_index (cf_tower c)) /\
+  (l = L_reorged -> reorged (cf_tower c') = reorged (cf_tower c)).
+Proof.
+  intros c Hi Hh Hij Hs.
+  pose proof (reachable_guar G_prot le sc t0 t opss sched (G_prot_common sc) G_prot_chain G_prot_api) as Hall.
+  pose proof (excl_run t (progs_of le sc t0 opss) sched) as Hex. fold c in Hall, Hex.
+  destruct (step_guar G_prot c j c' Hall Hs) as [_ [E|[thj [Hj Hg]]]]; [rewrite E; repeat split; reflexivity|].
+  pose proof (Hex i j thi thj l Hi Hj Hij Hh) as Hn. unfold holds in Hn.
+  destruct Hg as [_ [H1 [H2 [H3 [H4 [H5 H6]]]]]].
+  split; [intros ->; apply H1; exact Hn|]. split; [intros ->; apply H2; exact Hn|].
+  split; [intros ->; apply H6; exact Hn|]. split; [intros ->; destruct (H3 Hn) as [? [? ?]]; split; assumption|].
+  split; [intros ->; apply H4; exact Hn|intros ->; apply H5; exact Hn].
+Qed.
